@@ -25,7 +25,8 @@ CONSTANTS
     FaultLens,   \* the lengths for which every fault parameter is enumerated
     Ctors,
     NObservers,  \* number of (handle kind, observer method) pairs the harness knows
-    NReleases    \* number of handle kinds whose last release is tried with a panicking destructor
+    NReleases,   \* number of handle kinds whose last release is tried with a panicking destructor
+    NZst         \* number of paths a zero-sized payload with a destructor is taken through
 
 MaxOf(S) == CHOOSE x \in S : \A y \in S : y <= x
 MaxLen == MaxOf(Lens) + 2
@@ -75,7 +76,11 @@ ReleaseCases == {Mk("release", 0, k, 0, 0, 0, 0, 0, FALSE) : k \in 1..NReleases}
 \* an ArcUnion whose two payload types have the same size and alignment, only one of them with a
 \* destructor: the last release runs the destructor of the variant it holds
 UnionDropCases == {Mk("union_drop", 0, k, 0, 0, 0, 0, 0, FALSE) : k \in 1..4}
-Cases == FaultCases \cup HonestCases \cup ObserverCases \cup ReleaseCases \cup UnionDropCases
+\* a zero-sized payload with a destructor (and a counted Clone) through path k of the sized handles: every value
+\* created -- the original and each clone -- is destroyed exactly once, the block (which still holds the count)
+\* is returned once
+ZstCases == {Mk("zst", 0, k, 0, 0, 0, 0, 0, FALSE) : k \in 1..NZst}
+Cases == FaultCases \cup HonestCases \cup ObserverCases \cup ReleaseCases \cup UnionDropCases \cup ZstCases
 
 \* cases within the property's quantifier (the sets above are already restricted to |reported - actual| <= 2)
 InScope(x) ==
@@ -130,6 +135,11 @@ Start ==
          [] c.ctor = "union_drop" -> /\ result' = "ok" /\ pc' = "done" /\ blk' = "freed"
                                      /\ hdr' = "gone" /\ hdrops' = 1
                                      /\ UNCHANGED <<n, calls, fate, drops, vecbuf>>
+         \* a zero-sized payload taken through one path of the sized handles: like any other value it is destroyed
+         \* once, and the block that holds the count is freed
+         [] c.ctor = "zst" -> /\ result' = "ok" /\ pc' = "done" /\ blk' = "freed"
+                              /\ hdr' = "gone" /\ hdrops' = 1
+                              /\ UNCHANGED <<n, calls, fate, drops, vecbuf>>
          [] c.ctor = "vec" -> /\ n' = c.a /\ pc' = "alloc" /\ vecbuf' = "live"
                               /\ UNCHANGED <<calls, fate, drops, hdr, hdrops, blk, result>>
          \* from_header_and_slice / From<&[T]> / from_header_and_str / From<&str> / From<String>:
@@ -232,7 +242,7 @@ AtMostOnce == \A i \in 1..MaxLen : drops[i] <= 1 /\ (i > c.a => drops[i] = 0) /\
 \* C06/C07: a handle is produced only when every slot it exposes was written, in order, from the
 \* input, and the recorded length is the slice length
 NoUninitExposed ==
-    (Done /\ result = "ok" /\ c.ctor # "union_drop") =>
+    (Done /\ result = "ok" /\ c.ctor \notin {"union_drop", "zst"}) =>
         /\ n = c.a
         /\ \A i \in Elems : fate[i] = "slot"
         /\ hdr = "block" /\ blk = "handed"
@@ -263,7 +273,7 @@ PanicOutcome ==
 AllocFailAborts == (Done /\ c.afail) => (result = "abort" /\ blk = "none")
 
 \* C05: whatever the destructor does, the last release returns the block, once
-ReleaseFrees == (Done /\ c.ctor \in {"release", "union_drop"}) => (blk = "freed" /\ hdrops = 1)
+ReleaseFrees == (Done /\ c.ctor \in {"release", "union_drop", "zst"}) => (blk = "freed" /\ hdrops = 1)
 
 Inv == ReleaseFrees /\ AtMostOnce /\ NoUninitExposed /\ HonestSucceeds /\ SourceReleased /\ PanicOutcome /\ AllocFailAborts
 
